@@ -80,6 +80,11 @@ CHECKS = {
    category="model_checking", design_ref="§5 C19",
    text="All orders of anonymous construction, define/derive/alias/named construction and lookups over a small universe, including every failing call (taken name, taken symbol, symbol with a space, non-string symbol in every argument position), are enumerated by TLC; after each real call the lookup tables, the names/symbols objects report, uniqueness over time and atomicity of failures are compared. The declarations and probing lookups made during import of the shipped modules (one real subprocess per import order) are recorded from outside and checked by TLC against the same clauses.",
    note="Universe and depth in evidence; dimensions' names are not modelled (Dimension.derive has no failure mode); orphan intern entries are a separate clause."),
+
+ "C18": dict(engine="levels", technique="TLA+ spec Levels.tla (the level as an exact rational k*(j/12)/value(prefix); monotonicity, round-trip and zero-at-reference theorems checked by TLC) with TLC enumerating family x reference x lattice point; each replayed on the real library through alpha (50-digit exponential map)",
+   category="model_checking", design_ref="§5 C18",
+   text="TLC decides the definitional structure exactly (k by dimension class, direction of the logarithm's prefix, base, normalisation of the reference) and exports the exact level for every case; alpha builds the quantity reference*base**(j/12) with 50-digit decimals, in the reference's unit and in another convertible unit, and the code's level, quantify(), both round trips and level==quantity are compared at 1e-9; all references of a family also run in one process in both orders.",
+   note="The transcendental step is alpha's (decimal module, independent of math.log); TLC's share is the linear part, as stated in DESIGN §9.1."),
 }
 BUILT = set(CHECKS)
 m = {"version": 1, "setup_cmd": "./setup.sh",
@@ -95,6 +100,7 @@ m = {"version": 1, "setup_cmd": "./setup.sh",
    {"name": "lr", "path": "spec/LR.tla spec/MC_LR.tla harness/lr.py", "serves_properties": ["C16", "C17"], "kind_free_text": "complete product of LALR tables + LR interpreter + engine trace validation + differential parsing"},
    {"name": "uncertainty", "path": "spec/Uncertainty.tla spec/MC_Uncertainty.tla harness/uncertainty.py", "serves_properties": ["C14"], "kind_free_text": "TLC exact variance oracle + replay"},
    {"name": "names", "path": "spec/Names.tla spec/MC_Names.tla spec/MC_NamesTrace.tla harness/names.py harness/names_recorder.py", "serves_properties": ["C19"], "kind_free_text": "TLC model checking + replay + TLC trace validation of import-time declarations"},
+   {"name": "levels", "path": "spec/Levels.tla spec/MC_Levels.tla harness/levels.py", "serves_properties": ["C18"], "kind_free_text": "TLC exact linear oracle + replay through a high-precision exponential map"},
    {"name": "registry", "path": "spec/Registry.tla spec/MC_Registry.tla harness/registry.py harness/alpha.py", "serves_properties": ["C01", "C02", "C15"], "kind_free_text": "TLC model checking + spec->code replay of every transition (fork tree)"},
  ],
  "checks": [], "notes": "Every check: ./check <id> [--tier quick|thorough]; exit 0 held / 1 VIOLATION / 2 machinery failure. known_findings.txt lists genuine defects left unrepaired and repairs made.",
